@@ -223,16 +223,18 @@ def write_json_menus(config: kconfiglib.Kconfig, filename: str, write_deprecated
             if len(sym.ranges) > 0:
                 for min_range, max_range, cond_expr in sym.ranges:
                     if kconfiglib.expr_value(cond_expr):
+                        # A bound that is an option without a (valid) value counts as 0,
+                        # as in Symbol.str_value where the range is enforced.
                         if sym.type == kconfiglib.FLOAT:
                             greatest_range = [
-                                float(min_range.str_value),
-                                float(max_range.str_value),
+                                float(bound.str_value) if kconfiglib.is_float(bound.str_value) else 0.0
+                                for bound in (min_range, max_range)
                             ]
                         else:
                             base = 16 if sym.type == kconfiglib.HEX else 10
                             greatest_range = [
-                                int(min_range.str_value, base),
-                                int(max_range.str_value, base),
+                                int(bound.str_value, base) if kconfiglib._is_base_n(bound.str_value, base) else 0
+                                for bound in (min_range, max_range)
                             ]
                         break
 
